@@ -1,6 +1,7 @@
 import DracoProps.C02
 import DracoProps.C03Eb
 import DracoProofs.EbStatus
+import DracoProofs.EbTraversalFuel
 /-
   C02 — status discipline with the Edgebreaker body decoder inside (staging file of the Edgebreaker slice, to be
   merged into DracoProps/C02.lean).
@@ -37,6 +38,40 @@ theorem decode_seq_eb_some_ok_valid (opts : DecOpts) (bs : Bytes) (r : DecodeRes
     r s' h, ?_⟩
   exact C03Eb.decodeStreamWith_post_upToFaces _ _ opts (Eb.decodeEdgebreaker_post opts)
     (fun _ _ _ hk => (failWith_ok hk).elim) _ r s' h
+
+/-! ### fuel adequacy of the vertex traversals
+
+  The model bounds the `while (true)` / `while (!stack.empty())` loops of `DepthFirstTraverser` and
+  `MaxPredictionDegreeTraverser` by `4·(faces + vertices) + 16` iterations and reports `fuel:` (→ `unsupported`)
+  beyond.  That exit is unreachable — for EVERY corner table and face array, consistent or not: an iteration of
+  the depth-first inner loop marks a face or a vertex visited that was not, the stack loop pops or enters the inner
+  loop on an unvisited face (which pushes at most one corner); an iteration of the max-prediction-degree inner loop
+  marks a new face visited and pushes at most two corners, the stack loop pops one.  (DracoProofs/EbTraversalFuel.lean,
+  loop invariants with `mvcgen`.)  So the C++ loops terminate on every input, within these bounds.
+
+  NOT proved: the fuel exits of the loops that walk around a vertex (`SwingLeft` / `SwingRight` until the start
+  corner or a boundary is reached: TOPOLOGY_S, the vertex compaction, `RecomputeVertices`, `AssignPointsToCorners`,
+  the multi-parallelogram / geometric-normal predictors).  They terminate when `opposite_corners_` is a partial
+  involution (then a swing orbit is a simple path or a cycle through the start) — which the connectivity decoder
+  maintains by its `Opposite(c) != kInvalidCornerIndex → return false` checks, an invariant of the symbol loop that
+  is not proved here.  tools/props/ebcases.py reports a `fuel:` outcome of any generated or corrupted stream as a
+  finding candidate; none has been observed. -/
+
+/-- `MeshTraversalSequencer<DepthFirstTraverser>::GenerateSequence` never exhausts the model's fuel -/
+theorem depth_first_fuel_sufficient (t : Eb.TView) (faces : Array Nat) (v2dSize : Nat) (s : String) :
+    Eb.depthFirst t faces v2dSize ≠ .error (.fuel s) := Eb.depthFirst_noFuel t faces v2dSize s
+
+/-- `MeshTraversalSequencer<MaxPredictionDegreeTraverser>::GenerateSequence` never exhausts the model's fuel -/
+theorem max_prediction_degree_fuel_sufficient (t : Eb.TView) (faces : Array Nat) (v2dSize : Nat) (s : String) :
+    Eb.maxPredictionDegree t faces v2dSize ≠ .error (.fuel s) := Eb.maxPredictionDegree_noFuel t faces v2dSize s
+
+/-- non-vacuity: both traversers on one triangle (3 vertices) visit the three corners -/
+example :
+    let t : Eb.TView := { c2v := #[0, 1, 2], opp := #[Eb.inv, Eb.inv, Eb.inv], seam := #[], lm := #[0, 1, 2],
+                          isAtt := false, numFaces := 1 }
+    (Eb.depthFirst t #[0, 1, 2] 3).toOption.map (·.d2c) = some #[1, 2, 0] ∧
+    (Eb.maxPredictionDegree t #[0, 1, 2] 3).toOption.map (·.d2c) = some #[1, 2, 0] := by
+  decide +kernel
 
 /-- non-vacuity: an accepted Edgebreaker stream ends with status `ok` … -/
 example : ((decodeGeometry {} { rest := C03Eb.triStream }).1.isSome,
